@@ -276,6 +276,23 @@ Proof.
   - apply IH. assumption.
 Qed.
 
+(* utils.whittaker_smooth builds the system that _setup_whittaker builds for banded_solver = 1 and
+   runs one add_diagonal pass: a corollary of asls_system *)
+Theorem whittaker_smooth_system hp N lam d w y :
+  (1 <= d < N)%nat -> 0 < lam ->
+  exists k, whittaker_smooth hp N lam d w y = Some k /\ sys_ok N (doc_asls N d lam w) (mulv w y) k.
+Proof.
+  intros Hd Hlam.
+  destruct (asls_system hp 1 N lam d [w] y Hd Hlam) as (cs & Hcs & HF).
+  unfold asls, setup in Hcs. replace (Z.of_nat d <? 1) with false in Hcs by lia.
+  change (true && (1 <? 4)) with true in Hcs. change (1 <? 3) with true in Hcs.
+  unfold whittaker_smooth.
+  destruct (reset hp N None {| c_lam := lam; c_d := d; c_allow_lower := true; c_rev := None;
+                               c_allow_penta := true; c_pad := 0 |}) as [s|]; [|discriminate].
+  cbn [map diag_passes] in Hcs. injection Hcs as <-.
+  eexists. split; [reflexivity|]. inversion HF; subst. assumption.
+Qed.
+
 (* ------------------------------------------------------------------ add_penalty / _add_diagonals *)
 Section AddPen.
   Variables (N u u' : Z).
